@@ -117,3 +117,34 @@ def cpu_stop():
     import signal
 
     signal.setitimer(signal.ITIMER_VIRTUAL, 0)
+
+
+# ----------------------------------------------------------------------------- spin detector
+# A loop that stays inside ONE call of the instrumented modules (e.g. the Colang 1.0 `slide()` advancing a `while` whose
+# body only assigns variables) enters no instrumented function, so the step counter stands still while CPU time passes.
+# Every `window` CPU-seconds the handler compares the step counter with its value one window earlier: fewer than
+# `min_calls` new function entries in a whole window of CPU time = the computation is spinning inside a single call.
+_spin = {"last": 0, "window": 0.0, "min_calls": 0}
+
+
+def _on_spin(signum, frame):
+    import signal
+
+    c = _state["count"]
+    if c - _spin["last"] < _spin["min_calls"]:
+        signal.setitimer(signal.ITIMER_VIRTUAL, 0)
+        raise CpuBudgetExceeded("spinning: %d function entries into the instrumented modules during %.0f s of CPU time" % (c - _spin["last"], _spin["window"]))
+    _spin["last"] = c
+    signal.setitimer(signal.ITIMER_VIRTUAL, _spin["window"])
+
+
+def spin_start(window=25.0, min_calls=50):
+    import signal
+
+    _spin.update(last=_state["count"], window=float(window), min_calls=min_calls)
+    signal.signal(signal.SIGVTALRM, _on_spin)
+    signal.setitimer(signal.ITIMER_VIRTUAL, float(window))
+
+
+def spin_stop():
+    cpu_stop()
